@@ -83,10 +83,15 @@ public:
     }
 
     static void invoke_epoch_thread() {
+        // the stop flag of a previous init() / fin() cycle must not stop the new thread
+        kEpochThreadEnd.store(false, std::memory_order_release);
         kEpochThread = std::thread(epoch_thread);
     }
 
-    static void invoke_gc_thread() { kGCThread = std::thread(gc_thread); }
+    static void invoke_gc_thread() {
+        kGCThreadEnd.store(false, std::memory_order_release);
+        kGCThread = std::thread(gc_thread);
+    }
 
     static void join_epoch_thread() { kEpochThread.join(); }
 
